@@ -46,5 +46,14 @@ def check(run):
 
 
 def replay(run, path):
+    """Re-execute the behaviour embedded in the failing trace's Cfg line on the current tree and re-validate."""
     body = json.load(open(path))
-    raise vlib.InfraError("replay of lifecycle traces: re-run `bin/check C14` with VERIF_SEED=%s; failing trace is embedded in %s" % (body.get("seed"), path))
+    cfg = next((e for e in body.get("trace", []) if e.get("e") == "Cfg"), None)
+    if not cfg or "behJson" not in cfg:
+        raise vlib.InfraError("replay file %s carries no behaviour" % path)
+    beh = json.loads(cfg["behJson"])
+    files = lc.record(run, [beh], prefix="replay")
+    run.note_case("replay")
+    run.note_case(json.dumps(beh, sort_keys=True))
+    run.validate("Lifecycle_Trace", "Lifecycle_Trace.cfg", files)
+    run.samples = [{"steps": beh.get("steps")}]
